@@ -109,6 +109,25 @@ def gen_cases(rng, tier):
                 other = {"h": [[o, cnt] for o, cnt in other.get("h", [[gens.q(2), 1]]) if abs(Fraction(*o)) <= 4]}
             pair = [other, sc] if rng.random() < 0.6 else [sc, other]
             cases.append({"kind": "bin", "op": opi, "l": pair[0], "r": pair[1]})
+        if i % 10 == 6:
+            # typed operands: bool outcomes (results of comparisons: ~True == -2, True + True == 2) and counts given
+            # as NumPy integers large enough for products to leave the 64-bit range (counts are exact Python ints)
+            if rng.random() < 0.5:
+                hb = {"h": [[gens.q(0), rng.choice([1, 2, 3])], [gens.q(1), rng.choice([0, 1, 3])]], "otyp": "bool"}
+                if rng.random() < 0.5:
+                    cases.append({"kind": "un", "op": rng.choice(["invert", "invert", "neg", "abs", "pos", "is_even"]), "a": hb})
+                else:
+                    other = gen_operand(rng, ["hi", "si", "p"])
+                    pair = [hb, other] if (rng.random() < 0.5 or "s" in other) else [other, hb]
+                    cases.append({"kind": "bin", "op": rng.choice(["add", "sub", "mul", "and", "or", "xor", "lt", "eq"]), "l": pair[0], "r": pair[1]})
+            else:
+                big = 2 ** 32
+                ha = {"h": [[o, c + big * rng.randint(1, 3)] for o, c in gens.hist_pos(rng, max_faces=3, frac_p=0.0, style="pos")], "ctyp": "npint64"}
+                hb2 = {"h": [[o, c + big * rng.randint(1, 3)] for o, c in gens.hist_pos(rng, max_faces=3, frac_p=0.0, style="pos")]}
+                if rng.random() < 0.5:
+                    hb2["ctyp"] = "npint64"
+                pair = [ha, hb2] if rng.random() < 0.5 else [hb2, ha]
+                cases.append({"kind": "bin", "op": rng.choice(["add", "sub", "mul", "lt", "ge", "floordiv"]), "l": pair[0], "r": pair[1]})
         if i % 20 == 7:
             # the SAME left object combined in turn with right operands that compare equal (scaled,
             # zero-padded, pooled) and with the base again: results must not depend on earlier calls
@@ -129,7 +148,13 @@ def gen_cases(rng, tier):
 def _py_operand(x):
     from dyce import H
     if "h" in x:
-        return H(gens.py_hist_dict(x["h"]))
+        d = gens.py_hist_dict(x["h"])
+        if x.get("otyp") == "bool":
+            d = {bool(o): c for o, c in d.items()}
+        if x.get("ctyp") == "npint64":
+            import numpy
+            d = {o: numpy.int64(c) for o, c in d.items()}
+        return H(d)
     if "s" in x:
         v = gens.py_outcome(x["s"])
         styp = x.get("styp")
